@@ -7,6 +7,7 @@ VARIABLES tid, i, o, verdict
 vars == <<tid, i, o, verdict>>
 Src == Traces[tid].src
 Out == Traces[tid].out
+T == Traces[tid]
 Init == tid \in 1..Len(Traces) /\ i = 1 /\ o = 1 /\ verdict = "run"
 Stop(v) == verdict' = v /\ UNCHANGED <<tid, i, o>>
 Step ==
@@ -14,7 +15,16 @@ Step ==
   /\ IF i > Len(Src) /\ o > Len(Out) THEN Stop("ok")
      ELSE IF i > Len(Src) THEN Stop("output-longer")
      ELSE LET ti == NextTok(Src, i) IN
-       IF ti.k \in Bad THEN Stop("ood")
+       IF ti.k \in Bad THEN
+          \* the reference cannot tokenise this source (outside the dialect). The token list reported by
+          \* the implementation must still tile the source, and every token that is not a string
+          \* literal must be echoed byte for byte (itoks: [kind, srcStart, srcEnd, outStart, outEnd], 1-based, end exclusive)
+          (IF T.itoks = <<>> THEN Stop("ood")
+           ELSE IF T.itoks[1][2] # 1 \/ T.itoks[Len(T.itoks)][3] # Len(Src) + 1 THEN Stop("tiling")
+           ELSE IF \E n \in 1..(Len(T.itoks) - 1) : T.itoks[n][3] # T.itoks[n + 1][2] THEN Stop("tiling")
+           ELSE IF \E n \in 1..Len(T.itoks) : T.itoks[n][1] # "str" /\
+                     SubSeq(Src, T.itoks[n][2], T.itoks[n][3] - 1) # SubSeq(Out, T.itoks[n][4], T.itoks[n][5] - 1) THEN Stop("bytes")
+           ELSE Stop("ok-by-impl-tokens"))
        ELSE IF ti.k = "str" /\ ~StrValue(Src, i, ti.e).ok THEN Stop("ood")
        ELSE IF o > Len(Out) THEN Stop("output-shorter")
        ELSE LET to == NextTok(Out, o) IN
